@@ -784,13 +784,13 @@ Proof.
 Qed.
 
 (* first occurrences keep their name, later ones get  name ++ "__" ++ k *)
-Inductive names_ok : list text -> list (N * text) -> list (N * text) -> Prop :=
-| nk_nil seen : names_ok seen [] []
+Inductive names_ok (resv : list text) : list text -> list (N * text) -> list (N * text) -> Prop :=
+| nk_nil seen : names_ok resv seen [] []
 | nk_first seen a r raws fins :
-    ~ In r seen -> names_ok (seen ++ [r]) raws fins -> names_ok seen ((a, r) :: raws) ((a, r) :: fins)
+    ~ In r seen -> names_ok resv (seen ++ [r]) raws fins -> names_ok resv seen ((a, r) :: raws) ((a, r) :: fins)
 | nk_later seen a r j raws fins :
-    In r seen -> (1 <= j)%N -> names_ok (seen ++ [r]) raws fins ->
-    names_ok seen ((a, r) :: raws) ((a, suffixed r j) :: fins).
+    In r seen -> (1 <= j)%N -> ~ In (suffixed r j) resv -> names_ok resv (seen ++ [r]) raws fins ->
+    names_ok resv seen ((a, r) :: raws) ((a, suffixed r j) :: fins).
 
 Lemma N_eqb_eq' : forall a b : N, N.eqb a b = true <-> a = b.
 Proof. exact N.eqb_eq. Qed.
@@ -801,7 +801,7 @@ Lemma name_fold_first resv raws : forall d seen d',
   NoDup (keys d ++ map fst raws) ->
   (forall r, In r (map snd raws) -> In r resv) ->
   name_fold true resv d raws = Ok d' ->
-  exists fins, d' = d ++ fins /\ names_ok seen raws fins.
+  exists fins, d' = d ++ fins /\ names_ok resv seen raws fins.
 Proof.
   induction raws as [|[a r] raws IH]; intros d seen d' C1 C2 C3 C4 H; cbn [name_fold] in H.
   - injection H as <-. exists []. split; [now rewrite app_nil_r|constructor].
@@ -839,16 +839,16 @@ Proof.
 Qed.
 
 (* names_ok, read entry by entry *)
-Lemma names_ok_fst seen raws fins : names_ok seen raws fins -> map fst fins = map fst raws.
+Lemma names_ok_fst resv seen raws fins : names_ok resv seen raws fins -> map fst fins = map fst raws.
 Proof. induction 1; cbn [map fst]; congruence. Qed.
 
-Lemma names_ok_split seen raws fins : names_ok seen raws fins ->
+Lemma names_ok_split resv seen raws fins : names_ok resv seen raws fins ->
   forall pre a r post, raws = pre ++ (a, r) :: post ->
   exists fpre f fpost, fins = fpre ++ (a, f) :: fpost /\ List.length fpre = List.length pre /\
     (~ In r (seen ++ map snd pre) -> f = r) /\
-    (In r (seen ++ map snd pre) -> exists j, (1 <= j)%N /\ f = suffixed r j).
+    (In r (seen ++ map snd pre) -> exists j, (1 <= j)%N /\ ~ In (suffixed r j) resv /\ f = suffixed r j).
 Proof.
-  induction 1 as [seen|seen a0 r0 raws fins Hn Hok IH|seen a0 r0 j raws fins Hs Hj Hok IH]; intros pre a r post E.
+  induction 1 as [seen|seen a0 r0 raws fins Hn Hok IH|seen a0 r0 j raws fins Hs Hj Hnr Hok IH]; intros pre a r post E.
   - destruct pre; discriminate.
   - destruct pre as [|[a1 r1] pre]; cbn [app] in E.
     + injection E as -> -> ->. exists [], r, fins. cbn [map app]. rewrite app_nil_r.
@@ -858,7 +858,7 @@ Proof.
       split; [reflexivity|]. split; [cbn; now rewrite Hl|]. split; assumption.
   - destruct pre as [|[a1 r1] pre]; cbn [app] in E.
     + injection E as -> -> ->. exists [], (suffixed r j), fins. cbn [map app]. rewrite app_nil_r.
-      split; [reflexivity|]. split; [reflexivity|]. split; [intros Hn; contradiction|]. intros _. now exists j.
+      split; [reflexivity|]. split; [reflexivity|]. split; [intros Hn; contradiction|]. intros _. exists j. repeat split; assumption.
     + injection E as -> -> ->. destruct (IH pre a r post eq_refl) as (fpre & f & fpost & -> & Hl & H1 & H2).
       exists ((a1, suffixed r1 j) :: fpre), f, fpost. cbn [map snd]. rewrite <- app_assoc in H1, H2. cbn [app] in H1, H2.
       split; [reflexivity|]. split; [cbn; now rewrite Hl|]. split; assumption.
@@ -883,23 +883,24 @@ Proof.
 Qed.
 
 (* the form used by the property statements *)
-Definition first_occurrence_spec (raws finals : list (N * text)) : Prop :=
+Definition first_occurrence_spec (resv : list text) (raws finals : list (N * text)) : Prop :=
   map fst finals = map fst raws /\
   forall pre a r post, raws = pre ++ (a, r) :: post ->
     (~ In r (map snd pre) -> assoc_get N.eqb a finals = Some r) /\
-    (In r (map snd pre) -> exists j, (1 <= j)%N /\ assoc_get N.eqb a finals = Some (suffixed r j)).
+    (In r (map snd pre) -> exists j, (1 <= j)%N /\ ~ In (suffixed r j) resv /\
+                           assoc_get N.eqb a finals = Some (suffixed r j)).
 
 Theorem name_fold_first_occurrence resv raws finals :
   NoDup (map fst raws) -> (forall r, In r (map snd raws) -> In r resv) ->
-  name_fold true resv [] raws = Ok finals -> first_occurrence_spec raws finals.
+  name_fold true resv [] raws = Ok finals -> first_occurrence_spec resv raws finals.
 Proof.
   intros Hnd Hres H.
   destruct (name_fold_first resv raws [] [] finals) as (fins & -> & Hok); try assumption.
   - intros v [].
   - intros r [].
-  - cbn [app]. pose proof (names_ok_fst _ _ _ Hok) as Hf. split; [exact Hf|].
+  - cbn [app]. pose proof (names_ok_fst _ _ _ _ Hok) as Hf. split; [exact Hf|].
     intros pre a r post E.
-    destruct (names_ok_split _ _ _ Hok pre a r post E) as (fpre & f & fpost & -> & Hl & H1 & H2). cbn [app] in H1, H2.
+    destruct (names_ok_split _ _ _ _ Hok pre a r post E) as (fpre & f & fpost & -> & Hl & H1 & H2). cbn [app] in H1, H2.
     assert (Hna : ~ In a (map fst fpre)).
     { subst raws. rewrite !map_app in Hf. cbn [map fst] in Hf. rewrite map_app in Hnd. cbn [map fst] in Hnd.
       apply NoDup_remove_2 in Hnd. intros Hin. apply Hnd. apply in_or_app. left.
@@ -910,7 +911,7 @@ Proof.
       now rewrite <- Hfn. }
     rewrite (assoc_get_mid _ _ _ _ Hna). split.
     + intros Hn. now rewrite (H1 Hn).
-    + intros Hi. destruct (H2 Hi) as (j & Hj & ->). now exists j.
+    + intros Hi. destruct (H2 Hi) as (j & Hj & Hnr & ->). exists j. repeat split; assumption.
 Qed.
 
 (* ================================================================================================ *)
@@ -961,7 +962,7 @@ Proof. intros H. apply in_map_iff in H as ([a r'] & <- & Hin). eapply raw_in_res
 Theorem ac_first_occurrence_ord m0 lines i : alt_names m0 = [] ->
   ids_distinct alt_name_prefix lines = true ->
   OrdIO.ord_parse true false m0 lines = Ok i ->
-  first_occurrence_spec (raw_names alt_name_prefix lines) (alt_names (OrdIO.o_meta i)).
+  first_occurrence_spec (reserved_of alt_name_prefix lines) (raw_names alt_name_prefix lines) (alt_names (OrdIO.o_meta i)).
 Proof.
   intros H0 Hd H. apply ord_names_fold in H. rewrite H0 in H.
   apply (nodupb_NoDup N.eqb N_eqb_eq') in Hd.
@@ -971,9 +972,9 @@ Qed.
 Theorem ac_first_occurrence_cat m0 lines i : alt_names m0 = [] ->
   CatIO.cat_parse true false m0 lines = Ok i ->
   (ids_distinct alt_name_prefix lines = true ->
-   first_occurrence_spec (raw_names alt_name_prefix lines) (alt_names (CatIO.c_meta i))) /\
+   first_occurrence_spec (reserved_of alt_name_prefix lines) (raw_names alt_name_prefix lines) (alt_names (CatIO.c_meta i))) /\
   (ids_distinct cat_name_prefix lines = true ->
-   first_occurrence_spec (raw_names cat_name_prefix lines) (CatIO.c_cat_names i)).
+   first_occurrence_spec (reserved_of cat_name_prefix lines) (raw_names cat_name_prefix lines) (CatIO.c_cat_names i)).
 Proof.
   intros H0 H. apply cat_names_fold in H as [Ha Hc]. rewrite H0 in Ha.
   split; intros Hd; apply (nodupb_NoDup N.eqb N_eqb_eq') in Hd;
@@ -1230,7 +1231,7 @@ Definition dup_id_lines : list text :=
 Theorem ac_first_occurrence_dup_id_refuted :
   exists m0 lines i, alt_names m0 = [] /\ OrdIO.ord_parse true false m0 lines = Ok i /\
     alt_names (OrdIO.o_meta i) = [(1%N, lit "X__1")] /\
-    ~ first_occurrence_spec (raw_names alt_name_prefix lines) (alt_names (OrdIO.o_meta i)).
+    ~ first_occurrence_spec (reserved_of alt_name_prefix lines) (raw_names alt_name_prefix lines) (alt_names (OrdIO.o_meta i)).
 Proof.
   exists (meta0 (lit "soc")), dup_id_lines.
   destruct (OrdIO.ord_parse true false (meta0 (lit "soc")) dup_id_lines) as [i|e] eqn:E; vm_compute in E; [|discriminate].
